@@ -40,6 +40,31 @@ func pcSaneCodec(c c15Codec) bool {
 	return true
 }
 
+// pcWeirdApt: an apt value outside what a payload type can be, built around the payload type p of a codec that is
+// present: congruent to it modulo 256 (a uint8 conversion would hit p), negative, signed, padded, not a number, huge.
+func pcWeirdApt(r *rand.Rand, p int) string {
+	switch r.Intn(12) {
+	case 0, 1, 2:
+		return strconv.Itoa(256 + p)
+	case 3, 4:
+		return strconv.Itoa(512 + p)
+	case 5:
+		return strconv.Itoa(65536 + p)
+	case 6:
+		return strconv.Itoa(-p)
+	case 7:
+		return strconv.Itoa(p - 256)
+	case 8:
+		return c15Pick(r, []string{"abc", "", "0x60", "96a", "9 6", "1e2"})
+	case 9:
+		return c15Pick(r, []string{"99999999999999999999", "18446744073709551712", "4294967392"}) // 2^64+96, 2^32+96
+	case 10:
+		return "+" + strconv.Itoa(256+p)
+	default:
+		return "00" + strconv.Itoa(256+p)
+	}
+}
+
 func pcLocals(r *rand.Rand, audio bool) []c15Codec {
 	out := []c15Codec{}
 	for _, c := range c15Locals(r, audio) {
@@ -73,6 +98,20 @@ func pcLocals(r *rand.Rand, audio bool) []c15Codec {
 				c15Codec{b, "video/rtx", 90000, 0, "apt=" + strconv.Itoa(p), nil},
 				c15Codec{c15FreshPt(r, used), "video/flexfec-03", 90000, 0, "repair-window=10000000", nil})
 		}
+	}
+	// an RTX whose apt is no payload type at all, aimed at a codec that is present
+	if !audio && len(out) > 0 && r.Intn(7) == 0 {
+		used := map[int]bool{}
+		for _, c := range out {
+			used[c.pt] = true
+		}
+		p := out[r.Intn(len(out))].pt
+		x := c15Codec{c15FreshPt(r, used), "video/rtx", 90000, 0, "apt=" + pcWeirdApt(r, p), nil}
+		if r.Intn(4) == 0 {
+			x.fmtp += ";rtx-time=3000"
+		}
+		k := r.Intn(len(out) + 1)
+		out = append(out[:k:k], append([]c15Codec{x}, out[k:]...)...)
 	}
 
 	return out
@@ -155,6 +194,15 @@ func pcPrefs(r *rand.Rand, engine []c15Codec, explicitPt bool) []c15Codec {
 	}
 	if r.Intn(10) == 0 && len(out) > 0 {
 		out = append(out, out[r.Intn(len(out))]) // the same codec twice
+	}
+	if r.Intn(8) == 0 && len(out) > 0 {
+		// a preferred RTX whose apt is out of range, aimed at a preferred codec (needs an rtx in the engine to be accepted)
+		p := out[r.Intn(len(out))]
+		pt := p.pt
+		if pt == 0 {
+			pt = c15Pick(r, []int{96, 100, 120})
+		}
+		out = append(out, c15Codec{c15Pick(r, []int{0, 101, 119, 123}), "video/rtx", 90000, 0, "apt=" + pcWeirdApt(r, pt), nil})
 	}
 
 	return out
